@@ -1440,6 +1440,7 @@ func (fr *Frame) execMakeSlice(x *ssa.MakeSlice) {
 		fr.assumeHere(Term{fmt.Sprintf("(forall ((i Int)) (! (= (select %s %s) %s) :pattern ((select %s %s))))", h.S, cell.S, c.zero(lp.t).S, h.S, cell.S), SBool})
 	}
 	fr.vals[x] = mkSlice(base, tInt(0), ln, cp)
+	fr.registerPrivate(x, base)
 }
 
 func (fr *Frame) execPanic(x *ssa.Panic) {
